@@ -93,7 +93,7 @@ def gen_defn(rng, i):
         # O(1) matter here
         d = gen.contractive_program(rng, n_state=(1, 3), n_control=(1, 2), n_calib=(0, 1), n_sensor=(1, 2),
                                     n_reading=(1, 2), depth=1, n_shared=(0, 1), allow_text=False)
-        sc = rng.choice([1e-9, 1e-10, 1e-11, 1e-8])
+        sc = rng.choice([1e-9, 1e-10, 1e-11, 1e-8, 1e-13])
         d["process_noise"] = {k: v * sc * 50 for k, v in d["process_noise"].items()}
         d["sensor_noises"] = {s_: {r: v * sc for r, v in rd.items()} for s_, rd in d["sensor_noises"].items()}
         d["family"] = "tiny_magnitude"
